@@ -285,6 +285,11 @@ def stepLine (st : DState) (line : String) : DState × Option String :=
 
 def callLine (toks : List String) : Option String :=
   match toks with
+  | ["series", vals, fromFit, n, d] => do
+    let v ← parseRats? vals
+    let n ← n.toNat?
+    let d ← d.toNat?
+    some (";".intercalate ((convertSeries v (fromFit == "1") n d).map fun r => ",".intercalate (r.map showRat)))
   | ["partition", n, j, cpu] => do
     let n ← n.toNat?
     let j ← j.toInt?
